@@ -59,7 +59,7 @@ def _item(draw):
         undocumented = len([p for p in allp if p["name"] not in case["documented"]])
         return {"type": "definition", "kind": case["kind"], "source": c07.render(case), "undocumented": undocumented}
     # shapes whose conversion goes through a set / frozenset of strings are forced into a third of the descriptions
-    forced = draw(st.sampled_from((None, None, "mixed_literal", "union_with_str", "int_literal", "undocumented_param")))
+    forced = draw(st.sampled_from((None, None, "mixed_literal", "union_with_str", "int_literal", "undocumented_param", "two_announcements")))
     return {"type": "ir", "ir": draw(domain.ir_strategy(allowed=ALL_KNOBS, forced=forced, max_params=5))}
 
 
